@@ -133,6 +133,7 @@ class Plans(object):
         each.  Such entries are merged in order of arrival: the model's n-th request carrying the masked payload gets
         what the n-th such request got from the worker."""
         def entry(fn, k, p, replies):
+            p = model_payload(p)
             sent = self.sent.get(fn, {}).get(k)
             if sent is None or len(sent) != len(replies):       # a table filled in from outside: no delays known
                 return [p, replies]
@@ -162,6 +163,32 @@ class Plans(object):
                     rows.append([g[0][1], [x[1] for x in merged], [x[2] for x in merged]])
             out[fn] = rows
         return out
+
+
+def model_payload(x):
+    """A payload as the model will produce it where it carries an Error Output *inside a JSON text* (an Error Output
+    caught into the data and passed through `States.JsonToString` into a Task's Parameters): the model's Cause is
+    "<cause>", and its `States.JsonToString` prints like the engine's (`json.dumps`, insertion order) — so the text is
+    parsed, the Cause texts in it masked, and printed again the same way.  (Cause texts that are plain members are masked
+    by the driver itself when it looks a payload up.)"""
+    if isinstance(x, dict):
+        return {k: model_payload(v) for k, v in x.items()}
+    if isinstance(x, list):
+        return [model_payload(v) for v in x]
+    if isinstance(x, str) and '"Cause"' in x:
+        try:
+            j = json.loads(x)
+        except ValueError:
+            return x
+        if isinstance(j, (dict, list)):
+            def walk(y):
+                if isinstance(y, dict):
+                    return {k: ("<cause>" if k == "Cause" and "Error" in y and isinstance(v, str) else walk(v)) for k, v in y.items()}
+                if isinstance(y, list):
+                    return [walk(v) for v in y]
+                return model_payload(y)
+            return json.dumps(walk(j))
+    return x
 
 
 def mask_cause(x):
@@ -352,8 +379,8 @@ def _request_instants(m, requests):
 
 def replay_overrun(m, requests, timed):
     """The oracle the model is given is the *recording* of what the workers answered in this engine run, per (function,
-    payload) in order of arrival.  When a fan-out attempt fails the engine cuts the siblings short (and launches no further
-    Map batch) while the reference semantics runs every branch to its end: a sibling's further requests then consume
+    payload) in order of arrival.  When a fan-out attempt fails the engine cuts the siblings short while the reference
+    semantics runs every branch (of the failing batch) to its end: a sibling's further requests then consume
     entries of the recording that the engine gave to *later* requests carrying the same payload (the next attempt of a
     retried fan-out), and from there on the model is answered differently from the engine.  Under the canonical schedule
     `settle_oracle` repairs the recording (the model's phantom requests are recognisable by their instants); under any
@@ -408,6 +435,56 @@ def settle_oracle(m, oracle, requests, rerun, rounds=12):
     return m, n
 
 
+def limit_ms(machine):
+    """the execution's time limit (the machine's top-level TimeoutSeconds) as an instant in ms since the start, or None"""
+    n = machine.get("TimeoutSeconds") if isinstance(machine, dict) else None
+    return n * 1000.0 if isinstance(n, (int, float)) and not isinstance(n, bool) else None
+
+
+BACKSTOP_MS = 60000.0    # the engine's once-a-minute back stop (`check_for_expired_branch_results`) is outside the model
+
+
+def annotate_due(requests, plans):
+    """add to every request the workers received (`rpc_requests` entries, in order of arrival) the instant its reply is
+    due (`due`: arrival + the plan's delay; None: the worker never answers) — read off the recording of `Plans`"""
+    seen = {}
+    for q in requests:
+        key = (q["queue"], canon_payload(q["payload"]))
+        k = seen.get(key, 0)
+        seen[key] = k + 1
+        sent = (plans.sent.get(key[0], {}) if plans is not None else {}).get(key[1]) or []
+        rep = sent[k] if k < len(sent) else None
+        q["due"] = None if rep is None or rep.kind == "none" else q["t"] + rep.delay_ms
+    return requests
+
+
+def ttl_zero(t_ms, dl_ms):
+    """is the time-to-live of a task request published at `t_ms` under the execution deadline `dl_ms` zero?  The engine
+    gives the request message `expiration = str(int(timeout))`, the time left in ms computed through float epoch seconds;
+    the broker discards a message whose time-to-live is 0 unless a consumer takes it at once (the fake broker: always)"""
+    t1 = (BASE_EPOCH + dl_ms / 1000.0 - (BASE_EPOCH + t_ms / 1000.0)) * 1000
+    return int(t1 if t1 > 0 else 0) == 0
+
+
+def time_limit_incomparable(machine, m, requests, timed=True):
+    """Under an execution time limit (top-level TimeoutSeconds): why this run cannot be held against the reference
+    semantics at all (outcome, history, notifications, frames), or None.
+      time_limit        not the canonical schedule: when the limit runs out relative to everything else is the schedule's;
+      backstop          the run goes on for a minute or more: the engine's once-a-minute back stop may end it;
+      reply_at_deadline a worker's reply is due at the very instant of the deadline: the engine's timer for the deadline is
+                        armed through float epoch seconds and lands a hair before or after the reply."""
+    dl = limit_ms(machine)
+    if dl is None or m is None:
+        return None
+    if not timed:
+        return "time_limit"
+    if m.get("status") in ("SUCCEEDED", "FAILED") and model_ms(m.get("endTime", 0)) >= BACKSTOP_MS:
+        return "backstop"
+    if any(q.get("due") is not None and abs(q["due"] - dl) < 0.002 for q in requests or []):
+        return "reply_at_deadline"
+    return None
+
+
 def compare_history(machine, m, history, n_requests, timed=False, request_instants=None, requests=None):
     """The engine's complete history against the `history` of `Asl.run` (`m`: the model's outcome).
     Returns (mode, problems, number of engine events compared):
@@ -415,13 +492,20 @@ def compare_history(machine, m, history, n_requests, timed=False, request_instan
       multiset  fan-outs, none of which failed: the multisets are equal (the interleaving of branches is the schedule's);
       fanfail   some fan-out attempt failed (which siblings got how far is the schedule's): the engine's ExecutionStarted /
                 ExecutionSucceeded / ExecutionFailed, `…StateExited` and LambdaFunctionSucceeded events are among the
-                model's (the model runs every branch to its end); nothing else is compared;
+                model's (the model runs every branch of the failing batch to its end); nothing else is compared;
       skipped   the model ran out of fuel / does not support the machine / several branches of a fan-out failed.
     In every compared mode the ids are 1..n with previousEventId = id - 1; in the first two the number of task requests
     the workers saw equals the model's `requests`.  `…Aborted` events are left out everywhere.
     `timed` (the canonical schedule: every event is handled the instant it is due): each event also carries its instant
     (ms on the virtual clock since the start, exact to the microsecond), and `request_instants` — when the workers
-    received their requests — are the instants of the model's LambdaFunctionScheduled events (first two modes)."""
+    received their requests — are the instants of the model's LambdaFunctionScheduled events (first two modes).
+    The execution's time limit (top-level TimeoutSeconds, canonical schedule): a fan-out cut by it is no `fanfail` —
+    every branch still at work is cut at that same instant, in the model as in the engine, so the histories are compared
+    as multisets; only what happens *at* that instant in several branches is the timers' order (`LambdaFunctionTimedOut`
+    of a Task whose own limit is the same instant may or may not be filed before the execution ends: left out on both
+    sides; anything else there: `skipped.tie_at_deadline`).  A request published at or after the deadline (C08-F1: after
+    a Retrier's interval that ran past it; or within its last millisecond: `ttl_zero`) carries a time-to-live of 0 and is
+    discarded by the broker: the workers do not see it.  A reply due exactly at the deadline: `skipped.reply_at_deadline`.  Runs that go on for a minute or more under a time limit are not compared (`skipped.backstop`)."""
     import collections
     from common import cj
     # several branches of one fan-out failed: under the canonical schedule the earliest failure is the fan-out's (unless
@@ -430,11 +514,20 @@ def compare_history(machine, m, history, n_requests, timed=False, request_instan
         return "skipped", [], 0
     if oracle_order_ambiguous(m, requests, timed):
         return "skipped.oracle_order", [], 0
+    dl = limit_ms(machine)
+    why = time_limit_incomparable(machine, m, requests, timed)
+    if why:
+        return "skipped." + why, [], 0
     mine = model_events(m, timed)
     theirs = history_events(history, timed)
     fans = fanout_names(machine)
+    fan_in = any(e[0].endswith("StateEntered") and e[1] in fans for e in mine + theirs)
     probs = numbering_problems(history)
-    if m.get("fanFail"):
+    end = model_ms(m.get("endTime", 0)) if timed else None
+    cut_in_fan = bool(m.get("execTimeout")) and fan_in and timed
+    # (C08-F1) a sibling that sits in a Retrier's interval when the execution ends goes on in the model: phantoms
+    phantoms = cut_in_fan and any(e[3] > end for e in mine)
+    if m.get("fanFail") or phantoms:
         keep = lambda e: e[0] in FANFAIL_KINDS or e[0].endswith("StateExited")
         have = collections.Counter(cj(e) for e in mine if keep(e))
         sel = [e for e in theirs if keep(e)]
@@ -442,7 +535,13 @@ def compare_history(machine, m, history, n_requests, timed=False, request_instan
         if extra:
             probs.append({"what": "events the reference semantics does not have", "events": sorted(extra.elements())[:4]})
         return "fanfail", probs, len(sel)
-    if any(e[0].endswith("StateEntered") and e[1] in fans for e in mine + theirs):
+    if cut_in_fan and end == dl:
+        at_end = lambda e: e[3] == end and not e[0].startswith("Execution")
+        if any(at_end(e) and e[0] != "LambdaFunctionTimedOut" for e in mine):
+            return "skipped.tie_at_deadline", [], 0
+        mine = [e for e in mine if not at_end(e)]
+        theirs = [e for e in theirs if not at_end(e)]
+    if fan_in:
         mode = "multiset"
         a, b = collections.Counter(cj(e) for e in theirs), collections.Counter(cj(e) for e in mine)
         if a != b:
@@ -456,23 +555,39 @@ def compare_history(machine, m, history, n_requests, timed=False, request_instan
             i = next((i for i, (x, y) in enumerate(zip(theirs, mine)) if cj(x) != cj(y)), min(len(theirs), len(mine)))
             probs.append({"what": "histories differ as sequences", "at": i, "engine": theirs[i:i + 2], "model": mine[i:i + 2],
                           "lengths": [len(theirs), len(mine)]})
-    if n_requests != m.get("requests"):
-        probs.append({"what": "number of task requests", "engine": n_requests, "model": m.get("requests")})
+    # requests whose time limit is over when they are published — the execution's deadline has passed (or does within
+    # the millisecond), or the Task's own limit is 0 s or less (TimeoutSecondsPath): `LambdaFunctionTimedOut` at the
+    # request's own instant — carry a time-to-live of 0 and expire unseen
+    evs = model_events(m, True) if timed else []
+    sched, seen = [], []
+    for i, e in enumerate(evs):
+        if e[0] == "LambdaFunctionScheduled" and len(e) > 3:
+            nxt = evs[i + 1] if i + 1 < len(evs) else None
+            gone = (dl is not None and ttl_zero(e[3], dl)) or (nxt is not None and nxt[0] == "LambdaFunctionTimedOut" and nxt[3] == e[3])
+            sched.append(e[3])
+            if not gone:
+                seen.append(e[3])
+    expired = len(sched) - len(seen)
+    if n_requests != (m.get("requests") - expired if timed else m.get("requests")):
+        probs.append({"what": "number of task requests", "engine": n_requests, "model": m.get("requests"), "expired_unseen": expired})
     if timed and request_instants is not None:
-        want = [e[3] for e in mine if e[0] == "LambdaFunctionScheduled"]
+        want = seen
         got = [round(float(t), 3) for t in request_instants]
         if (sorted(got) != sorted(want)) if mode == "multiset" else (got != want):
             probs.append({"what": "the instants at which the workers received their requests", "engine": got[:8], "model": want[:8]})
     return mode, probs, len(theirs)
 
 
-def compare_notifications(m, details, data, timed=False, requests=None):
+def compare_notifications(m, details, data, timed=False, requests=None, machine=None):
     """The status notifications of the execution (the `detail` of each, in order of publication) against the model's
     `notifications`: the same statuses in the same order — RUNNING carrying the execution's input, then the terminal
-    status carrying the output, or the error name with a cause exactly when the Error Output has one."""
+    status carrying the output, or the error name with a cause exactly when the Error Output has one.
+    (`machine`: to leave out what an execution time limit makes incomparable, `time_limit_incomparable`.)"""
     from common import cj
     if (m.get("status") not in ("SUCCEEDED", "FAILED") or m.get("tieFail" if timed else "multiFail")
             or oracle_order_ambiguous(m, requests, timed)):
+        return "skipped", []
+    if machine is not None and time_limit_incomparable(machine, m, requests, timed):
         return "skipped", []
     want = m.get("notifications", [])
     probs = []
@@ -568,7 +683,7 @@ def _run_case(machine, data, plans, policy, rng, sm_type, max_steps, instances, 
     r.history = s.history(ea) if sm_type == "STANDARD" else None
     r.notifications = [n for n in s.notifications if n["body"] and n["body"].get("detail", {}).get("executionArn") == ea]
     r.volatile = s.snapshot_volatile()
-    r.requests = list(s.rpc_requests)
+    r.requests = annotate_due(list(s.rpc_requests), pl)
     last = r.notifications[-1]["body"]["detail"] if r.notifications else None
     r.status = last["status"] if last else None
     r.output = None
